@@ -19,7 +19,7 @@ What is enumerated
     and sends nothing afterwards.
 
 Bounds
-    quick: depth 4 (HTTP) / 5 (WebSocket);  thorough: depth 5 (HTTP) / 6 (WebSocket).
+    quick: depth 6 (h1) / 4 (h2, h2te) / 5 (ws/h1, ws/h2);  thorough: depth 8 / 6 / 7.
 
 Oracle clauses (reference automaton: mc/x_c12_ref.py, written from the ASGI spec)
     invalid-accepted      send() returned although the reference rejects the message
@@ -84,8 +84,8 @@ ASSUMPTIONS = [
     "states in which raising already disagreed with the reference are reported and not expanded",
     "client-side length errors are not counted once the application contradicted its own content-length",
 ]
-BOUNDS_DOC = {"quick": "depth 4 (HTTP carriers) / 5 (WebSocket carriers), full alphabet",
-              "thorough": "depth 5 (HTTP carriers) / 6 (WebSocket carriers), full alphabet"}
+BOUNDS_DOC = {"quick": "history depth 6 (h1) / 4 (h2, h2te) / 5 (ws/h1, ws/h2), full alphabet",
+              "thorough": "history depth 8 (h1) / 6 (h2, h2te) / 7 (ws/h1, ws/h2), full alphabet"}
 BUDGET = {"quick": 150, "thorough": 1500}
 
 # ---------------------------------------------------------------------------------------------
@@ -147,7 +147,8 @@ WS_OPS: Dict[str, dict] = {
 }
 
 CARRIERS = ["h1", "h2", "h2te", "ws/h1", "ws/h2"]
-DEPTH = {"quick": {"http": 4, "ws": 5}, "thorough": {"http": 5, "ws": 6}}
+DEPTH = {"quick": {"h1": 6, "h2": 4, "h2te": 4, "ws/h1": 5, "ws/h2": 5},
+         "thorough": {"h1": 8, "h2": 6, "h2te": 6, "ws/h1": 7, "ws/h2": 7}}
 
 SERVER_HEADERS = {b"date", b"server", b"connection", b"transfer-encoding", b"alt-svc", b"upgrade",
                   b"sec-websocket-accept", b"sec-websocket-extensions", b"sec-websocket-protocol"}
@@ -539,7 +540,7 @@ def run_history(carrier: str, history: List[str]) -> Tuple[str, List[dict], List
 
 def explore_item_custom(params: Any, tier: str, deadline: float) -> dict:
     carrier, first = params
-    depth = DEPTH[tier]["ws" if is_ws(carrier) else "http"]
+    depth = DEPTH[tier][carrier]
 
     def run(history: List[str]) -> Tuple[str, List[dict], List[str]]:
         canon, viol, enabled, _ = run_history(carrier, history)
